@@ -18,8 +18,8 @@ VERIF = os.path.dirname(os.path.dirname(os.path.abspath(__file__)))
 REPO = os.environ.get("VERIF_REPO", "/repo")
 SPEC = os.path.join(VERIF, "spec")
 HARNESS = os.path.join(VERIF, "harness")
-EVID = os.path.join(VERIF, "evidence")
-REPLAYS = os.path.join(VERIF, "out", "replays")
+EVID = os.environ.get("VERIF_EVID", os.path.join(VERIF, "evidence"))      # mutant runs write elsewhere
+REPLAYS = os.environ.get("VERIF_REPLAYS", os.path.join(VERIF, "out", "replays"))
 KNOWN = os.path.join(VERIF, "known_findings.json")
 NCPU = os.cpu_count() or 4
 
